@@ -121,7 +121,9 @@ func (t *mixedTable) next(k Value) (next Value, v Value, ok bool) {
 	} else {
 		i, isInt = ToIntNoString(k)
 	}
-	if isInt {
+	if isInt && (i >= 1 || k.IsNil()) {
+		// (The key 0 is not in the array part: 0 means "before the first item"
+		// only when k is nil.)
 		j, v, ok := t.array.next(i)
 		if ok {
 			if j > 0 {
@@ -131,6 +133,8 @@ func (t *mixedTable) next(k Value) (next Value, v Value, ok bool) {
 			// hash table.
 			return t.hashTable.next(NilValue)
 		}
+	}
+	if isInt {
 		k = IntValue(i)
 	}
 	return t.hashTable.next(k)
